@@ -232,6 +232,12 @@ func cmdCheck(args []string) {
 			fmt.Printf("VIOLATION property=%s replay=%s\n", *prop, path)
 		}
 	}
+	if *tier == "thorough" && os.Getenv("VERIF_NO_MUTANTS") == "" {
+		// thorough tier: this property's own must-fail corpus is run against the checker in the same session (overlays, /repo
+		// is not touched); the outcome is recorded in the evidence and never changes the verdict about the tree
+		mutantResults, mutantsUnexpected = runMutants(*prop, "", false)
+		mutantsRun = true
+	}
 	wall := time.Since(start).Seconds()
 	writeEvidence(pc, *tier, seed, res, wall, violations, knownHit)
 	fmt.Printf("property %s: %d obligations, %d discharged, %d violations, %d known findings, %.1fs\n", *prop, len(res.relevant), res.discharged, violations, len(knownHit), wall)
@@ -360,6 +366,12 @@ func (vc *VC) selectFunctionsSoft(names []string) []*ssa.Function {
 	return out
 }
 
+var (
+	mutantResults     []map[string]interface{}
+	mutantsUnexpected int
+	mutantsRun        bool
+)
+
 func writeEvidence(pc *PropConfig, tier string, seed int, res *propResult, wall float64, violations int, knownHit []string) {
 	cov := map[string]interface{}{}
 	var samples []interface{}
@@ -459,6 +471,14 @@ func writeEvidence(pc *PropConfig, tier string, seed int, res *propResult, wall 
 		"machine integers treated as mathematical integers; float64 as reals; strings as uninterpreted identifiers",
 		"errgroup.Group.Go(f) executed synchronously (fork/join only); sync.Mutex as no-op; data-race freedom not verified",
 		"map length as an uninterpreted cardinality with insert/delete/empty axioms and the finite-set lemma (equal cardinality + subset => equal)",
+	}
+	if mutantsRun {
+		cov["checker_selftest"] = map[string]interface{}{
+			"what":       "deliberately broken variants of the functions under contract (and harmless edits) applied as overlays: a variant counts as detected when the expected named obligation fails",
+			"entries":    len(mutantResults),
+			"unexpected": mutantsUnexpected,
+			"results":    mutantResults,
+		}
 	}
 	cov["known_findings_hit"] = knownHit
 	if len(pc.Bounded) > 0 {
